@@ -1,11 +1,20 @@
 (* Extraction of the export / round-trip model (C17) and job-side validation (C06, C09). ExtrOcamlBasic only. *)
 From Coq Require Import Extraction ExtrOcamlBasic List NArith ZArith String.
-Require Import OJD.Base OJD.Lexer OJD.Json OJD.Schema OJD.Generated OJD.CreateJob OJD.Parse OJD.Validators OJD.Accept OJD.Export.
+Require Import OJD.Base OJD.Lexer OJD.Json OJD.Schema OJD.Generated OJD.CreateJob OJD.Parse OJD.Validators OJD.Accept OJD.Export OJD.ExportFaithful.
 Extraction Language OCaml.
 Local Open Scope string_scope.
 Definition rt_job_template (classify : N -> cclass) (j : json) := roundtrip_doc classify "JobTemplate" j.
 Definition rt_env_template (classify : N -> cclass) (j : json) := roundtrip_doc classify "EnvironmentTemplate" j.
+(* round trip + the faithfulness verdict of the proved decision function (C17_faithful_decided): is the source
+   document reproduced by the export up to numeric formatting? *)
+Definition rtf (classify : N -> cclass) (root : string) (j : json) : outcome (json * bool * bool) :=
+  match roundtrip_doc classify root j with
+  | Ok (o, ok) => Ok (o, ok, jequivb j o)
+  | Raise e => Raise e
+  end.
+Definition rtf_job_template (classify : N -> cclass) (j : json) := rtf classify "JobTemplate" j.
+Definition rtf_env_template (classify : N -> cclass) (j : json) := rtf classify "EnvironmentTemplate" j.
 Definition rt_job (classify : N -> cclass) (v : mval) := roundtrip classify "Job" v.
 Definition parse_job_ok (classify : N -> cclass) (j : json) : outcome bool :=
   match parse_any classify "Job" j with Ok _ => Ok true | Raise ValueError => Ok false | Raise e => Raise e end.
-Extraction "Model.ml" exn_eqb ascii_ok ascii_class rt_job_template rt_env_template rt_job parse_job_ok export create_job_verdict sumZ.
+Extraction "Model.ml" exn_eqb ascii_ok ascii_class rt_job_template rt_env_template rtf_job_template rtf_env_template jequivb rt_job parse_job_ok export create_job_verdict sumZ.
